@@ -893,6 +893,18 @@ theorem prefetch_to_device_order (items : List α) (size : Nat) (hs : 1 ≤ size
       · have he := enqueue_gt (Ending.stop (ε := ε)) (s + 1) [] (x :: r) (by omega)
         simp [genRun, genNext, genInit, he, genRun_steady_stop, firstK_cons]
 
+/-- **prefetch_to_device delivers all.**  For *any* item type `α` — the statement is parametric, so no
+value of `α` (a `None`, an empty container, a falsy scalar, an item equal to its neighbour) can act
+as an end-of-stream sentinel — every source and every `size ≥ 1`: the first `n + k` calls of `next`
+give exactly the `n` source items, in order, each once, and then `k` times `StopIteration`. -/
+theorem prefetch_to_device_delivers_all (items : List α) (size : Nat) (hs : 1 ≤ size) (k : Nat) :
+    genRun size (Ending.stop (ε := ε)) (items.length + k) (genInit items)
+      = items.map Obs.item ++ List.replicate k Obs.stop := by
+  rw [prefetch_to_device_order items size hs, firstK]
+  have h : (items.map (Obs.item (ε := ε))).length = items.length := by simp
+  rw [← h, List.take_length_add_append, List.take_replicate]
+  congr 2; omega
+
 /-- **prefetch_to_device with a raising source** (the code as it is: a generator).  The exception
 surfaces at the `next` that pulled it from the source: the consumer gets the first `n + 1 - size`
 items, then the source's exception, then `StopIteration`; the `min (size-1) n` items that were
@@ -934,6 +946,11 @@ theorem prefetch_to_device_size0 (items : List α) (ending : Ending ε) (k : Nat
 example : genRun 2 (Ending.stop (ε := Nat)) 5 (genInit [1, 2, 3]) = [.item 1, .item 2, .item 3, .stop, .stop] := by decide
 example : genRun 2 (Ending.raises 9) 5 (genInit [1, 2, 3]) = [.item 1, .item 2, .exc 9, .stop, .stop] := by decide
 example : genRun 1 (Ending.raises 9) 5 (genInit [1, 2, 3]) = [.item 1, .item 2, .item 3, .exc 9, .stop] := by decide
+-- a source whose second item is the distinguished "nothing" value: delivered like any other item
+example : genRun 2 (Ending.stop (ε := Nat)) 4 (genInit [some 1, none, some 3])
+    = [.item (some 1), .item none, .item (some 3), .stop] := by decide
+example : genRun 1 (Ending.stop (ε := Nat)) 4 (genInit [(none : Option Nat), none, none])
+    = [.item none, .item none, .item none, .stop] := by decide
 example : firstK [Obs.item 1, Obs.exc 9] 4 = [Obs.item 1, Obs.exc 9, Obs.stop, (Obs.stop : Obs Nat Nat)] := by decide
 
 end Ptd
